@@ -204,7 +204,7 @@ fn run_line(st: &mut ReplState, line: &str) {
         OK
     } else {
         let res = st.xs.compile(&line).and_then(|_| st.xs.run());
-        if st.trial.is_some() {
+        if st.trial.is_some() && res.is_ok() {
             st.update_xstate();
         }
         let n = st.xs.data_depth();
